@@ -62,6 +62,7 @@ type kvAPI[K comparable, V comparable] struct {
 	floor    func(K) (K, V, bool)
 	ceiling  func(K) (K, V, bool)
 	iter     func() *IterDyn
+	setIter  func() *IterDyn      // TreeSet seen through the key-value adapter: (index, member) iterator
 	walk     func() []kvEnt[K, V] // independent walk over the exported structure
 	shape    func() *Viol         // exported-structure invariants (C07)
 	bound    func(n int) float64  // comparator-call bound for one Get/Put/Remove with n keys
@@ -288,7 +289,8 @@ func (s *KVSys[K, V]) api(b *kvBox[K, V]) *kvAPI[K, V] {
 			get:    func(k K) (V, bool) { return zv, t.Contains(k) },
 			remove: func(k K) { t.Remove(k) }, clear: t.Clear, size: t.Size,
 			empty: t.Empty, keys: t.Values, values: func() []V { return make([]V, t.Size()) }, str: t.String,
-			bound: rbBound, putMul: 1, remMul: 1}
+			setIter: func() *IterDyn { it := t.Iterator(); return idxIterRev[K](&it) },
+			bound:   rbBound, putMul: 1, remMul: 1}
 	case "hashmap":
 		t := hashmap.New[K, V]()
 		return &kvAPI[K, V]{obj: t, name: "HashMap", put: t.Put, get: t.Get, remove: t.Remove, clear: t.Clear, size: t.Size,
@@ -740,12 +742,18 @@ func (b *kvBox[K, V]) boundCheck(what string, n, mul int) *Viol {
 // content: cheap comparison on every transition — Size, Keys()/Values() against the reference
 func (b *kvBox[K, V]) content() *Viol {
 	mp := b.mainProp()
+	enumProp := mp // a wrong number of enumerated keys also breaks the enumeration property of the container kind
+	if b.sys.ordered() {
+		enumProp = "C02"
+	} else if b.sys.linked() {
+		enumProp = "C09"
+	}
 	if got := b.a.size(); got != len(b.ref) {
-		return viol(tag(mp, "C01", "C15"), "mismatch", "Size() = %d, reference has %d live keys", got, len(b.ref))
+		return viol(tag(mp, "C01", "C15", enumProp), "mismatch", "Size() = %d, reference has %d live keys", got, len(b.ref))
 	}
 	keys, vals := b.a.keys(), b.a.values()
 	if len(keys) != len(b.ref) || len(vals) != len(b.ref) {
-		return viol(tag(mp, "C01", "C15"), "mismatch", "len(Keys()) = %d, len(Values()) = %d, reference has %d live keys", len(keys), len(vals), len(b.ref))
+		return viol(tag(mp, "C01", "C15", enumProp), "mismatch", "len(Keys()) = %d, len(Values()) = %d, reference has %d live keys", len(keys), len(vals), len(b.ref))
 	}
 	s := b.sys
 	if s.ordered() || s.linked() {
@@ -1061,6 +1069,9 @@ func (b *kvBox[K, V]) iterOrder() *Viol {
 func (b *kvBox[K, V]) Obj() any        { return b.a.obj }
 func (b *kvBox[K, V]) Opts() CanonOpts { return b.a.opts }
 func (b *kvBox[K, V]) NewIter() *IterDyn {
+	if b.a.setIter != nil {
+		return b.a.setIter()
+	}
 	if b.a.iter == nil {
 		return nil
 	}
@@ -1069,7 +1080,11 @@ func (b *kvBox[K, V]) NewIter() *IterDyn {
 func (b *kvBox[K, V]) ExpSeq() []Pair {
 	s := make([]Pair, len(b.ref))
 	for i, e := range b.ref {
-		s[i] = Pair{e.k, e.v}
+		if b.a.setIter != nil {
+			s[i] = Pair{i, e.k}
+		} else {
+			s[i] = Pair{e.k, e.v}
+		}
 	}
 	return s
 }
